@@ -14,6 +14,14 @@ M = [
  ("c01-continue-on-success", "C01", "service/tcp.go", "\t\tif err != nil {\n\t\t\tdebugTCP(l, \"Failed to decrypt length.\"", "\t\tif err == nil {\n\t\t\tdebugTCP(l, \"Failed to decrypt length.\""),
  ("c01-snapshot-without-lock", "C19", "service/cipher_list.go", "\tcl.mu.RLock()\n\tdefer cl.mu.RUnlock()\n", ""),
  ("c01-mark-used-on-failure", "C01", "service/tcp.go", "\tif entry == nil {\n\t\t// TODO: Ban", "\tcipherList.MarkUsedByClientIP(elt, clientIP)\n\tif entry == nil {\n\t\t// TODO: Ban"),
+ ("c01-snapshot-duplicates-front", "C01", "service/cipher_list.go", "\t\tif !matchesIP(e, clientIP) {\n\t\t\tcipherArray[i] = e\n", "\t\tif !matchesIP(e, clientIP) {\n\t\t\tcipherArray[i] = cl.list.Front()\n"),
+ ("c01-snapshot-second-pass-from-second", "C01", "service/cipher_list.go", "\t// Second pass: include all remaining ciphers in recency order.\n\tfor e := cl.list.Front(); e != nil; e = e.Next() {", "\t// Second pass: include all remaining ciphers in recency order.\n\tfor e := cl.list.Front().Next(); e != nil; e = e.Next() {"),
+ ("c03-udp-search-returns-last-id", "C03", "service/udp.go", "\t\treturn buf, id, cryptoKey, nil\n", "\t\treturn buf, snapshot[len(snapshot)-1].Value.(*CipherEntry).ID, cryptoKey, nil\n"),
+ ("c03-udp-search-stops-early", "C03", "service/udp.go", "\t\t\tdebugUDP(l, \"Failed to unpack.\", id, slog.Any(\"err\", err))\n\t\t\tcontinue\n", "\t\t\tdebugUDP(l, \"Failed to unpack.\", id, slog.Any(\"err\", err))\n\t\t\tbreak\n"),
+ ("c15-clean-relay-reports-error", "C15", "service/tcp.go", "\tif fromTargetErr != nil {\n\t\treturn onet.NewConnectionError(\"ERR_RELAY_TARGET\"", "\tif fromTargetErr == nil {\n\t\treturn onet.NewConnectionError(\"ERR_RELAY_TARGET\""),
+ ("c12-accept-loop-exits-on-any-error", "C12", "service/listeners.go", "\t\t\t\tif errors.Is(err, net.ErrClosed) {\n\t\t\t\t\tclose(acceptCh)", "\t\t\t\tif err != nil && errors.Is(err, err) {\n\t\t\t\t\tclose(acceptCh)"),
+ ("c02-write-deadline-armed", "C02", "service/tcp.go", "\touterConn.SetReadDeadline(readDeadline)\n", "\touterConn.SetDeadline(readDeadline)\n"),
+ ("c17-key-not-canonical", "C17", "prometheus/metrics.go", "\treturn &IPKey{ip, accessKey}, nil", "\treturn &IPKey{netip.AddrFrom16(ip.As16()), accessKey}, nil"),
  # ---- C02
  ("c02-prefix-truncated-to-salt", "C02", "service/tcp.go", "io.MultiReader(bytes.NewReader(firstBytes), clientReader)", "io.MultiReader(bytes.NewReader(firstBytes[:entry.CryptoKey.SaltSize()]), clientReader)"),
  ("c02-reader-on-raw-conn", "C02", "service/tcp.go", "shadowsocks.NewReader(clientReader, cipherEntry.CryptoKey)", "shadowsocks.NewReader(func() io.Reader { _ = clientReader; return clientConn }(), cipherEntry.CryptoKey)"),
